@@ -34,8 +34,21 @@ def c03(tier):
     return runs
 
 
+def lit_ctx(prop, tier, ctxs=(0, 1, 2, 3)):
+    """Literal / comment templates with k arbitrary body bytes, in context (harness/zz_verif_h_lit.go)."""
+    k = 2 if tier == "quick" else 3
+    runs = []
+    for form in range(9):
+        for ctx in ctxs:
+            for n in range(0, k + 1):
+                if n == 3 and ctx not in (0, 1):
+                    continue
+                runs.append(dict(harness="verifHarness_Lit", args=[prop, n, form, ctx]))
+    return runs
+
+
 def c03_all(tier):
-    return c03(tier) + s2_errors(3, tier) + fam(3, tier, cut=False) + fam_mut(3, tier) + corpus(3)
+    return c03(tier) + lit_ctx(3, tier) + s2_errors(3, tier) + fam(3, tier, cut=False) + fam_mut(3, tier) + corpus(3)
 
 
 def c15(tier):
@@ -167,6 +180,13 @@ def fam_quote(prop, tier):
     return [dict(harness="verifHarness_FamQuote", args=[prop, f, 1 if q else 2, 2], cut=CUT) for f in range(NFAM)]
 
 
+def fam_gap(prop, tier, budget=None):
+    """Family sentences with non-canonical trivia before one token (symbolic position; two blanks, comment, newline)."""
+    q = tier == "quick"
+    b = budget if budget is not None else (1 if q else 2)
+    return [dict(harness="verifHarness_FamGap", args=[prop, f, b, 2], cut=CUT) for f in range(NFAM)]
+
+
 def c02(tier):
     return s1_parser("verifHarness_C02", "C02/accepted", tier) + [dict(r, args=[2] + r["args"][1:]) for r in s2_accepting(1, tier)] + fam(2, tier) + corpus(2)
 
@@ -188,7 +208,10 @@ def c06(tier):
         runs.append(s2(6, 0, 0, 2, EXPR, True))
     else:
         runs += [dict(r, args=[6] + r["args"][1:]) for r in s2_accepting(1, "quick")[:2]]
-    return runs + corpus(6)
+    gaps = fam_gap(6, tier, budget=0 if q else 1)
+    for r in gaps:
+        r["budget"] = 50000000
+    return runs + gaps + corpus(6)
 
 
 def c07(tier):
@@ -200,6 +223,8 @@ def c07(tier):
 def c11(tier):
     q = tier == "quick"
     runs = [dict(harness="verifHarness_C11", args=[n, l]) for l in (0, 1, 2) for n in ((1, 2) if q else (1, 2, 3))]
+    # lists made of the sentences of the families (statements, queries, DML, DDL)
+    runs += fam(11, tier, cut=False, budget=1 if q else 2)
     return runs
 
 
@@ -281,7 +306,7 @@ def corpus(prop, parts=1, part=0, cut=False):
 
 def c10(tier):
     runs = s1_parser("verifHarness_C10", "C10/bad", tier, sig_extra=False)
-    return runs + s2_errors(10, tier) + fam_mut(10, tier) + corpus(10)
+    return runs + lit_ctx(10, tier, (0, 1)) + s2_errors(10, tier) + fam_mut(10, tier) + corpus(10)
 
 
 def c01(tier):
@@ -294,21 +319,21 @@ def c01(tier):
 
 
 def c04(tier):
-    return s1_parser("verifHarness_C04", "C04/done", tier) + s2_errors(4, tier) + fam(4, tier, cut=False) + fam_mut(4, tier) + corpus(4)
+    return s1_parser("verifHarness_C04", "C04/done", tier) + lit_ctx(4, tier, (0, 1)) + s2_errors(4, tier) + fam(4, tier, cut=False) + fam_mut(4, tier) + corpus(4)
 
 
 def c05(tier):
-    return s1_parser("verifHarness_C05", "C05/done", tier) + s2_accepting(5, tier) + s2_errors(5, tier)[:4] + fam(5, tier) + fam_quote(5, tier) + corpus(5)
+    return s1_parser("verifHarness_C05", "C05/done", tier) + s2_accepting(5, tier) + s2_errors(5, tier)[:4] + fam(5, tier) + fam_quote(5, tier) + fam_gap(5, tier) + corpus(5)
 
 
 def c09(tier):
-    return s1_parser("verifHarness_C09", "C09/error", tier) + s2_errors(9, tier) + fam_mut(9, tier) + corpus(9)
+    return s1_parser("verifHarness_C09", "C09/error", tier) + lit_ctx(9, tier, (0, 1)) + s2_errors(9, tier) + fam_mut(9, tier) + corpus(9)
 
 
 PROPS = {
     "C11": dict(level="model_checking", runs=cutpanics(c11), reach=["C11/both-accept", "C11/both-reject"],
-                bounds={"quick": "lists of <= 2 pieces from a 17-entry statement vocabulary (incl. end-of-input sensitive ones: 'SELECT 1,', 'SELECT a, FROM t', trailing comma in CREATE TABLE, empty and comment-only pieces, rejected pieces) x 6 separator forms x optional trailing ';', for ParseStatements, ParseDDLs and ParseDMLs",
-                        "thorough": "lists of <= 3 pieces"},
+                bounds={"quick": "lists of <= 2 pieces from a 17-entry statement vocabulary (incl. end-of-input sensitive ones: 'SELECT 1,', 'SELECT a, FROM t', trailing comma in CREATE TABLE, empty and comment-only pieces, rejected pieces) x 6 separator forms x optional trailing ';', for ParseStatements, ParseDDLs and ParseDMLs; plus lists made of every sentence of the statement/query/DML/DDL families (<= 1 deviation): x;other, other;x, x;x with two separator forms and optional trailing ';'",
+                        "thorough": "lists of <= 3 pieces; family sentences with <= 2 deviations"},
                 outside="statements outside the vocabulary; longer lists"),
     "C12": dict(level="model_checking", runs=cutpanics(c12), reach=["C12/accepted", "C12/rejected"],
                 bounds={"quick": "all byte strings of length <= 3; length 4 over the 24-symbol alphabet; soups of <= 3 snippets from a 20-entry vocabulary of semicolons, literals and comments containing ';', '--', '/*' (glued without separators)",
@@ -319,8 +344,8 @@ PROPS = {
                         "thorough": "all byte strings of length <= 4 (and <= 3 after 'a.'); length 5 over the 24-symbol alphabet"},
                 outside="longer inputs"),
     "C03": dict(level="model_checking", runs=c03_all,
-                bounds={"quick": "all byte strings of length <= 2 for the nine Parse* entry points, <= 3 for SplitRawStatements and the NextToken loop",
-                        "thorough": "all byte strings of length <= 3 for the nine Parse* entry points, <= 4 for SplitRawStatements and the NextToken loop"},
+                bounds={"quick": "all byte strings of length <= 2 for the nine Parse* entry points, <= 3 for SplitRawStatements and the NextToken loop; literal/comment templates (7 quote forms, /* */, --) with bodies of <= 2 arbitrary bytes, alone, after 'SELECT 1; SELECT', at the end of a WHERE clause and inside CAST(); recovery soups, family sentences and their mutations, the corpus",
+                        "thorough": "all byte strings of length <= 3 for the nine Parse* entry points, <= 4 for SplitRawStatements and the NextToken loop; template bodies of <= 3 bytes (alone and after ';')"},
                 outside="longer inputs; stack exhaustion by deep nesting"),
     "C14": dict(level="model_checking", runs=cutpanics(c14), reach=["C14/both-accept", "C14/both-reject"],
                 bounds={"quick": "all byte strings of length <= 3 (and <= 2 after 'a.', dot-identifier mode); length 4 over the 24-symbol alphabet; literal templates: 6 prefixes x 5 quote forms (incl. back quote) x bodies of <= 2 arbitrary bytes x {end of input, followed by ' a'}",
@@ -338,7 +363,7 @@ PROPS = {
                         "thorough": "S1 <= 3; S2 one slot more; families with <= 3 deviations, lists <= 3"},
                 outside="inputs outside the bounds; the expected token sequence is the real lexer's token stream of the input (C13/C14 check the lexer)"),
     "C06": dict(level="model_checking", runs=cutpanics(c06), reach=["C06/accepted"],
-                bounds={"quick": "23 sentence families with <= 2 deviations (every node of every sentence: own-text re-parse and SQL() splice); S2: 2 expression slots; the corpus",
+                bounds={"quick": "23 sentence families with <= 2 deviations (every node of every sentence: own-text re-parse and SQL() splice); the default sentence of every family with non-canonical trivia (two blanks, comment, newline) before every token position; S2: 2 expression slots; the corpus",
                         "thorough": "families with <= 3 deviations; S2 operand x operator matrix and 3 expression slots; the corpus"},
                 outside="sentences outside the families; node kinds that occur in no explored sentence"),
     "C16": dict(level="model_checking", runs=cutpanics(c16), reach=["C16/ok"],
@@ -350,7 +375,7 @@ PROPS = {
                         "thorough": "S1: all byte strings of length <= 3; length 4 over the 24-symbol alphabet"},
                 outside="longer inputs"),
     "C05": dict(level="model_checking", runs=cutpanics(c05), reach=["C05/done"],
-                bounds={"quick": "S1: all byte strings of length <= 2 on all nine entry points; length 3 over the 24-symbol alphabet for ParseExpr/ParseType",
+                bounds={"quick": "S1: all byte strings of length <= 2 on all nine entry points; length 3 over the 24-symbol alphabet for ParseExpr/ParseType; S2 vocabulary runs; 23 families with <= 2 deviations, with one word back-quoted (<= 1 deviation) and with non-canonical trivia (two blanks, comment, newline) before every token position (<= 1 deviation); the corpus",
                         "thorough": "S1: all byte strings of length <= 3; length 4 over the 24-symbol alphabet"},
                 outside="longer inputs"),
     "C09": dict(level="model_checking", runs=cutpanics(c09), reach=["C09/clean", "C09/error"],
@@ -370,11 +395,11 @@ PROPS = {
                         "thorough": "S1: length <= 3; S2: soups of 4 slots"},
                 outside="longer inputs; Bad nodes only reachable through constructs outside the vocabularies"),
     "C17": dict(level="model_checking", runs=cutpanics(c17), reach=["C17/ok"],
-                bounds={"quick": "every node type (generated builders from go/types): children present/absent by symbolic bits with <= 2 present, and all children present (slices of 2) at depth 1 and 2; pruning at every node index, Inspect pruning, Preorder stop after every k; plus the trees of the 23 sentence families (<= 1 deviation)",
+                bounds={"quick": "every node type (generated builders from go/types): children present/absent by symbolic bits with <= 2 present, and all children present (slices of 2) at depth 1 and 2; pruning at every node index, Inspect pruning, Preorder stop after every k; plus the trees of the 23 sentence families (<= 1 deviation); WalkMany/InspectMany/PreorderMany on lists of three, one and no roots",
                         "thorough": "<= 3 present children, depth 2; families with <= 2 deviations"},
                 outside="trees deeper than the bounds that are not family instances"),
     "C18": dict(level="model_checking", runs=c18, reach=["C18/ok"],
-                bounds={"quick": "x: all byte strings of length <= 1 on every entry point (<= 2 for ParseExpr and ParseStatements), y: one of 7 fixed inputs (valid, invalid, lexically broken, empty, with \\u escapes), each entry point paired with another one; literals exercising every escape kind; plus every sentence of the 23 families (<= 1 deviation) with a fixed erroneous statement list in between",
+                bounds={"quick": "x: all byte strings of length <= 1 on every entry point (<= 2 for ParseExpr and ParseStatements), y: one of 7 fixed inputs (valid, invalid, lexically broken, empty, with \\u escapes), each entry point paired with another one; literals exercising every escape kind; plus every sentence of the 23 families (<= 1 deviation) with a fixed erroneous statement list in between; all calls go through the package-level helpers (ParseStatement(filepath, s) ...); the node sets of any two results are disjoint",
                         "thorough": "x of length <= 3; families with <= 2 deviations"},
                 outside="interleavings of goroutines are not explored (DESIGN.md section 8): race-freedom follows from the absence of writes to shared state by argument, not by schedule exploration"),
     "C19": dict(level="translation_validation", runs=cutpanics(c19), reach=["C19/checked", "C19/parsed", "C17/ok"],
